@@ -74,8 +74,8 @@ def send_half(r, F):
     check_fn(r, F, 'send_open', eos, lambda s, l: R.ref_send_open(s, l == 'eos=true'), 'send HEADERS')
     check_fn(r, F, 'send_close', [('-', {})], lambda s, l: R.ref_send_close(s), 'send END_STREAM')
     check_fn(r, F, 'reserve_local', [('-', {})], lambda s, l: R.ref_reserve(s, 'local'), 'send PUSH_PROMISE (promised stream)')
+    local_reset_rows(r, F)
     from .rfcstates import E, SI, CA
-    check_fn(r, F, 'set_reset', [('-', {})], lambda s, l: ('unit', E(SI, 'Closed', (E(CA, 'Error', (TOP,)),))), 'local reset')
     check_fn(r, F, 'set_scheduled_reset', [('-', {})],
              lambda s, l: ('unit', E(SI, 'Closed', (E(CA, 'ScheduledLibraryReset', (TOP,)),))) + (('may-assert',) if R.to_rfc(s)[0] == 'closed' else ()), 'scheduled reset')
     predicates(r, F, ['is_send_streaming', 'is_send_closed', 'is_send_awaiting_headers', 'is_closed', 'is_idle', 'is_scheduled_reset', 'is_reset'])
@@ -169,3 +169,10 @@ def recv_reset_rows(r, F):
         cause = 'ErrorAfterEndStream' if R.recv_end_stream_seen(s) else 'Error'
         return ('unit', E(SI, 'Closed', (E(CA, cause, (TOP,)),)))
     check_fn(r, F, 'recv_reset', [('queued=false', {3: B(False)}), ('queued=true', {3: B(True)})], ref_recv_reset, 'recv RST_STREAM')
+
+
+def local_reset_rows(r, F):
+    """a local reset closes the stream with Cause::Error from every state — it never becomes ErrorAfterEndStream, so a body cut
+    short by our own reset (e.g. a content-length violation found at the trailers) is never reported as a clean end"""
+    from .rfcstates import E, SI, CA
+    check_fn(r, F, 'set_reset', [('-', {})], lambda s, l: ('unit', E(SI, 'Closed', (E(CA, 'Error', (TOP,)),))), 'local reset')
